@@ -776,6 +776,71 @@ func (p *Prog) sortKeyPurity(r *Report, l mapLoop, base ssa.Value, aliases map[s
 					}
 				}
 			}
+			// elements appended as composite literals: append(list, T{…}) — the literal's compared component
+			for b := range l.body {
+				for _, in := range b.Instrs {
+					cl, ok := in.(*ssa.Call)
+					if !ok {
+						continue
+					}
+					bi, ok := cl.Call.Value.(*ssa.Builtin)
+					if !ok || bi.Name() != "append" || !(aliases[cl] || aliases[cl.Call.Args[0]]) || len(cl.Call.Args) != 2 {
+						continue
+					}
+					sl, ok := cl.Call.Args[1].(*ssa.Slice)
+					if !ok {
+						continue
+					}
+					va, ok := sl.X.(*ssa.Alloc)
+					if !ok {
+						continue
+					}
+					// the variadic array's elements: loads of local composite literals
+					for _, ref := range *va.Referrers() {
+						ia, ok := ref.(*ssa.IndexAddr)
+						if !ok {
+							continue
+						}
+						for _, r2 := range *ia.Referrers() {
+							st, ok := r2.(*ssa.Store)
+							if !ok || st.Addr != ssa.Value(ia) {
+								continue
+							}
+							u, ok := st.Val.(*ssa.UnOp)
+							if !ok {
+								continue
+							}
+							lit := rootAlloc(u.X)
+							if lit == nil {
+								continue
+							}
+							for _, r3 := range *lit.Referrers() {
+								var cname string
+								var addr ssa.Value
+								switch a := r3.(type) {
+								case *ssa.IndexAddr:
+									if k, isK := constInt(a.Index); isK {
+										cname, addr = fmt.Sprint(k), a
+									}
+								case *ssa.FieldAddr:
+									cname, addr = fieldName(lit.Type(), a.Field), a
+								}
+								if addr == nil || cname != strings.TrimSuffix(comp, "(seq)") {
+									continue
+								}
+								for _, r4 := range *addr.Referrers() {
+									if st2, ok := r4.(*ssa.Store); ok && st2.Addr == addr {
+										found = true
+										if valDep[st2.Val] {
+											bad = p.Pos(st2.Pos())
+										}
+									}
+								}
+							}
+						}
+					}
+				}
+			}
 			if comp == "v(seq)" {
 				r.OK(rule, name, construct, p.Pos(sc.Pos()), "comparator "+p.Name(less)+" orders by the sequence number of the element")
 				continue
